@@ -16,6 +16,61 @@ ASSUME_FIBER = [
 ]
 
 
+def pipegen_step(res, prop, tier, seed, variant, stride, nrandom, enumerate_k=True):
+    """run generated pipeline programs against the reference interpreter and merge the outcome into res"""
+    import os
+    import sys
+    sys.path.insert(0, driver.ROOT)
+    from pipegen import run as pgrun
+    from vf import build
+    coro = variant != "plain17"
+    t0 = time.time()
+    try:
+        sets = []
+        if stride > 0:
+            sets.append(("l1", pgrun.l1_programs(coro, stride)))
+        if nrandom > 0:
+            sets.append(("rnd", pgrun.random_programs(seed, nrandom, coro)))
+        for tag, progs in sets:
+            binary = pgrun.build_binary(progs, variant, tag)
+            recs, crashes = pgrun.run_binary(binary, enumerate_k=enumerate_k)
+            viols, st = pgrun.evaluate(progs, recs, crashes)
+            res.evaluations += st["runs"]
+            res.distinct += st["distinct_classes"]
+            res.distinct_nontrivial += st["distinct_classes"]
+            res.nontrivial += st["runs"]
+            res.checks += st["runs"] * 8
+            res.engines.append({"family": "pipegen/" + tag, "variant": variant, "mode": "single-thread deterministic", "sanitizer": "asan" if "asan" in variant else "none",
+                                "cases": st["runs"], "programs": st["programs"], "runs_per_mode": st["per_mode"], "eager_twins_compared": st["twins_compared"],
+                                "exhaustive_length1_stride": stride if tag == "l1" else None, "wall_s": round(time.time() - t0, 2), "complete": True})
+            for smp in st["samples"][:6]:
+                if len(res.samples) < 24:
+                    res.samples.append({"engine": "pipegen/" + variant, "case": smp})
+            bykey = {}
+            for v in viols:
+                props = v["props"].split(",")
+                f = bykey.get(v["key"])
+                if f is None:
+                    f = driver.Finding(prop, v["key"], v["case"], v["detail"], "pipegen", variant, 0,
+                                       {"engine": "pipegen", "variant": variant, "tag": tag, "seed": seed, "stride": stride, "nrandom": nrandom, "program": v["prog"]})
+                    f.props = props
+                    bykey[v["key"]] = f
+                f.count += 1
+            for f in bykey.values():
+                (res.findings if prop in f.props else res.other).append(f)
+    except build.BuildError as e:
+        res.harness_error = str(e)
+    res.wall += time.time() - t0
+
+
+PIPEGEN_RULE = ("pipegen: every program = source x 1-4 steps (attach mode x callback signature x return kind incl. inner Future/"
+                "SharedFuture/Task heads) x start/tail; each program is run once without rejection and then once per rejection "
+                "point k (from the k-th Submit on, and only the k-th) — the enumeration over k is complete per program; each run "
+                "is compared with the sequential reference interpreter (callback order and arguments, executor tag, final Result, "
+                "Submit count, tracked objects, new/delete balance, allocation budget). distinct = distinct (program class, "
+                "rejection mode, predicted callback order, predicted final Result) tuples. ")
+
+
 class Step:
     def __init__(self, family, variant, quick, thorough, cells=None, propfilter=True, hang=None, extra=None, budget=None):
         self.family, self.variant, self.quick, self.thorough = family, variant, quick, thorough
@@ -226,8 +281,59 @@ def c17(tier, seed):
                          min_distinct=200, t_start=t0)
 
 
+def c02(tier, seed):
+    t0 = time.time()
+    res = driver.RunResult()
+    q = tier == "quick"
+    pipegen_step(res, "C02", tier, seed, "plain20-O0", 12 if q else 1, 250 if q else 4000, enumerate_k=False)
+    if not res.harness_error and not q:
+        pipegen_step(res, "C02", tier, seed, "plain17", 4, 1500, enumerate_k=False)
+    return driver.finish("C02", tier, seed, "exploration", res, PIPEGEN_RULE + "C02 uses the runs without rejection.",
+                         ["the reference interpreter in pipegen/gen.py encodes the documented routing/recovery/unwrapping rules", "single-threaded deterministic execution; schedules are the business of C01/C03/C04"],
+                         min_distinct=100, t_start=t0)
+
+
+def c12(tier, seed):
+    t0 = time.time()
+    res = driver.RunResult()
+    q = tier == "quick"
+    pipegen_step(res, "C12", tier, seed, "plain20-O0", 12 if q else 1, 300 if q else 5000, enumerate_k=True)
+    if not res.harness_error:
+        driver.run_family(res, "C12", "fam_coro", "fib-asan", 20000 if q else 400000, seed, tier, cells="task-coroutine,await-lazy-task")
+    return driver.finish("C12", tier, seed, "exploration", res,
+                         PIPEGEN_RULE + "C12 looks at the lazy programs: a 'started' flag is raised immediately before the starting call "
+                         "(ToFuture, ToFuture(e), Get, Detach, Detach(e), drop; returned-as-inner-Task and co_await/Await starts come from "
+                         "the inner-task return kinds and from the fiber coroutine cells) and every callback logs it; lazy programs "
+                         "are also compared with their eager twins.",
+                         ["reference interpreter as for C02", "abandoning = destroying the unstarted Task: the head sees StopError, the rest follows the C02 rules"],
+                         min_distinct=100, t_start=t0)
+
+
+def c05(tier, seed):
+    t0 = time.time()
+    res = driver.RunResult()
+    q = tier == "quick"
+    pipegen_step(res, "C05", tier, seed, "plain20-O0", 16 if q else 1, 250 if q else 4000, enumerate_k=True)
+    for s in ([Step("fam_exec", "fib-asan", 60000, 1500000), Step("fam_core", "fib-asan", 20000, 400000, cells="-exec"),
+               Step("fam_coro", "fib-asan", 20000, 400000, cells="stopped-target,future-coroutine/live"),
+               Step("fam_exec", "thr-tsan", 2000, 60000)]):
+        if res.harness_error:
+            break
+        n = s.quick if q else s.thorough
+        driver.run_family(res, "C05", s.family, s.variant, n, seed, tier, cells=s.cells)
+    return driver.finish("C05", tier, seed, "fault_enumeration", res,
+                         PIPEGEN_RULE + "Fiber engines: instrumented jobs on Inline/stopped Inline/Manual/Strand/FairThreadPool with a "
+                         "stopping thread (Call xor Drop, Drop only after the stop began), executor tag at continuation/coroutine "
+                         "resumption; there distinct = distinct interleaving signatures.",
+                         ["rejection points are enumerated completely per generated program (k-th Submit), schedules of Stop vs Submit are sampled"],
+                         min_distinct=100, t_start=t0)
+
+
 PLANS = {
     "C01": c01,
+    "C02": c02,
+    "C05": c05,
+    "C12": c12,
     "C17": c17,
     "C13": c13,
     "C14": c14,
